@@ -155,7 +155,9 @@ impl FilterPolicy for BloomPolicy {
         filter
     }
     fn key_may_match(&self, key: &[u8], filter: &[u8]) -> bool {
-        if filter.len() == 0 {
+        // An empty filter, or one that consists of the probe count only, has no bits that could
+        // exclude a key.
+        if filter.len() < 2 {
             return true;
         }
 
